@@ -22,17 +22,18 @@ import (
 // C10 — proof (de)serialisation is total, canonical and robust to I/O faults.
 
 type c10Case struct {
-	Kind    string `json:"kind"` // multi | ipa
-	Base    string `json:"base"` // valid | uniform
-	Seed    uint64 `json:"seed"`
-	Field   int    `json:"field"`          // field to replace (-1 none); points first, the scalar last
-	Repl    string `json:"repl,omitempty"` // replacement class
-	LenMode string `json:"len,omitempty"`  // "", trunc, extend
-	LenArg  int    `json:"len_arg,omitempty"`
-	Reader  string `json:"reader"` // whole | onebyte | chunks | dataeof | errat
-	Chunk   int    `json:"chunk,omitempty"`
-	ErrAt   int    `json:"err_at,omitempty"`
-	WriteAt int    `json:"write_fail_at"` // the j-th Write call of the writer fails (-1: never)
+	Kind      string `json:"kind"` // multi | ipa
+	Base      string `json:"base"` // valid | uniform
+	Seed      uint64 `json:"seed"`
+	Field     int    `json:"field"`          // field to replace (-1 none); points first, the scalar last
+	Repl      string `json:"repl,omitempty"` // replacement class
+	LenMode   string `json:"len,omitempty"`  // "", trunc, extend
+	LenArg    int    `json:"len_arg,omitempty"`
+	Reader    string `json:"reader"` // whole | onebyte | chunks | dataeof | errat
+	Chunk     int    `json:"chunk,omitempty"`
+	ErrAt     int    `json:"err_at,omitempty"`
+	WriteAt   int    `json:"write_fail_at"`        // the j-th Write call of the writer fails (-1: never)
+	WriteFull bool   `json:"write_full,omitempty"` // the failing Write reports the full byte count together with the error
 }
 
 var (
@@ -182,15 +183,31 @@ func (r *planReader) Read(p []byte) (int, error) {
 	return n, nil
 }
 
+type countingReader struct {
+	r io.Reader
+	n int
+}
+
+func (c *countingReader) Read(p []byte) (int, error) {
+	n, err := c.r.Read(p)
+	c.n += n
+	return n, err
+}
+
 type failWriter struct {
 	buf    bytes.Buffer
 	calls  int
 	failAt int
+	full   bool
 }
 
 func (w *failWriter) Write(p []byte) (int, error) {
 	if w.calls == w.failAt {
 		w.calls++
+		if w.full { // allowed by io.Writer: all bytes taken, and an error
+			w.buf.Write(p)
+			return len(p), errWrite
+		}
 		return 0, errWrite
 	}
 	w.calls++
@@ -287,11 +304,12 @@ func evalC10Bytes(c c10Case, b []byte, rec *hx.Rec) error {
 	var mp multiproof.MultiProof
 	var ip ipa.IPAProof
 	var rerr error
+	cr := &countingReader{r: c.reader(b)}
 	perr := hx.Try(func() {
 		if c.Kind == "multi" {
-			rerr = mp.Read(c.reader(b))
+			rerr = mp.Read(cr)
 		} else {
-			rerr = ip.Read(c.reader(b))
+			rerr = ip.Read(cr)
 		}
 	})
 	if perr != nil {
@@ -315,6 +333,9 @@ func evalC10Bytes(c c10Case, b []byte, rec *hx.Rec) error {
 		return nil
 	}
 	rec.Label("accept")
+	if c.Kind == "ipa" && cr.n != need {
+		return fmt.Errorf("IPAProof.Read consumed %d bytes of the stream instead of exactly %d (reader %q, chunk %d, %d bytes available)", cr.n, need, c.Reader, c.Chunk, len(b))
+	}
 	// decoded fields equal the reference decode
 	var L, R = ip.L, ip.R
 	A := ip.A_scalar
@@ -364,7 +385,7 @@ func evalC10Bytes(c c10Case, b []byte, rec *hx.Rec) error {
 	}
 	// a writer failing at the j-th Write call makes Write return an error
 	if c.WriteAt >= 0 {
-		fw := &failWriter{failAt: c.WriteAt % (np + 1)}
+		fw := &failWriter{failAt: c.WriteAt % (np + 1), full: c.WriteFull}
 		var ferr error
 		if perr := hx.Try(func() {
 			if c.Kind == "multi" {
@@ -422,6 +443,7 @@ func genC10(t *rapid.T) c10Case {
 	}
 	if rapid.Bool().Draw(t, "write_fault") {
 		c.WriteAt = rapid.IntRange(0, np).Draw(t, "write_at")
+		c.WriteFull = rapid.Bool().Draw(t, "write_full")
 	}
 	return c
 }
@@ -453,6 +475,7 @@ func TestC10(t *testing.T) {
 			}
 			if hx.Sharded(f) {
 				c10Part.EvalCase(s, c10Case{Kind: kind, Base: "valid", Seed: seed, Field: -1, Reader: "whole", WriteAt: f})
+				c10Part.EvalCase(s, c10Case{Kind: kind, Base: "valid", Seed: seed, Field: -1, Reader: "whole", WriteAt: f, WriteFull: true})
 			}
 		}
 		for k := 0; k <= 32*(np+1)+1; k++ {
